@@ -84,3 +84,39 @@ func VerifC09FileMethods() {
 	verifAssert(ok, "the error of a file method is not a *PathError")
 	verifAssert(pe.Path == name, "the error of a file method does not name the FS-relative path of the handle")
 }
+
+// VerifC09Unrooted: an os.FS that was never given a root (NewFS() used directly): the error of every failing
+// method still names the caller's FS-relative path, not the absolute OS path. (Natively the names lie below a
+// regular file, so every call fails; symbolically the OS stub fails every call.)
+func VerifC09Unrooted() {
+	dir, err := goos.MkdirTemp("", "verif-c09u-")
+	if err != nil {
+		panic(err)
+	}
+	if !verifSymbolic() {
+		defer goos.RemoveAll(dir)
+		if err := goos.WriteFile(dir+"/file", []byte("x"), 0600); err != nil {
+			panic(err)
+		}
+	}
+	fs := NewFS()
+	name := dir[1:] + "/file/" + []string{"x", "d/y"}[verifChoice("name", 2)]
+	other := dir[1:] + "/file/o"
+	m := verifChoice("method", len(c09Methods))
+	verifTag("method", c09Methods[m])
+	cerr := c09Call(fs, m, name, other)
+	verifReach("called")
+	verifAssert(cerr != nil, "a call below a regular file succeeded")
+	if m >= 15 {
+		le, ok := cerr.(*hackpadfs.LinkError)
+		verifAssert(ok, "Rename/Symlink failure must be a *hackpadfs.LinkError")
+		verifAssert(le.Old == name && le.New == other, "LinkError must carry the caller's FS-relative names")
+		return
+	}
+	pe, ok := cerr.(*hackpadfs.PathError)
+	verifAssert(ok, "failure must be a *PathError")
+	if m == 4 || m == 6 {
+		return // MkdirAll / RemoveAll name an ancestor
+	}
+	verifAssert(pe.Path == name, "PathError.Path must be the caller's FS-relative name")
+}
